@@ -36,6 +36,8 @@ DECKS = [
                       '22 0 21 u=7 imp:n=1\n\n1 so 5\n11 px 1\n12 px -1\n13 py 1\n14 py -1\n21 so 0.5\n\nm1 13027 1\n',
      ['--lattice', '10,-1:1,-1:1', '--lattice', '10,0:0,0:0', '--lattice', '10,-1:0,0:0', '--lattice', '10,0:1,-1:0',
       '--lattice', '10,-1:1,0:0', '--lattice', '10,-1:1,-1:0']),
+    # a reflecting and a white surface on one plane, both used: the de-duplication merges them (the first flag counts)
+    ('bcmerge', 'bc deck\n1 0 -1 3 imp:n=1\n2 0 2 -4 imp:n=1\n3 0 -3 : 4 imp:n=0\n\n*1 px 5\n+2 px 5\n3 px 0\n4 px 9\n\n', []),
     # 5 LIKE n BUT with TRCL
     ('like', 'like deck\n1 1 -2.7 1 -2 imp:n=1\n2 like 1 but trcl=(2 0 0) mat=2 rho=-1.0\n3 0 -1 imp:n=1\n4 0 3 imp:n=0\n5 0 2 -3 #2 imp:n=1\n\n'
              '1 px -1\n2 px 1\n3 px 5\n\nm1 13027 1\nm2 8016 1\n', []),
@@ -132,7 +134,7 @@ def replay_chunk(chunk):
     return [replay_history(j) for j in chunk]
 
 
-def fresh_table(seed):
+def fresh_table(seed, only_opts=None):
     """Outputs of every (deck, options) call, each in a fresh interpreter with the given hash seed."""
     pool_file = os.path.join(tlc.scratch_dir('c18pool'), 'pool.json')
     with open(pool_file, 'w') as f:
@@ -143,7 +145,7 @@ def fresh_table(seed):
     table = {}
     procs = []
     for d in range(1, len(DECKS) + 1):
-        for o in range(1, len(OPTS) + 1):
+        for o in (only_opts or range(1, len(OPTS) + 1)):
             one = ('import sys, json\nsys.path.insert(0, %r)\nfrom vt4.checks import c18\n'
                    'c18.DECKS[:] = [tuple(x) for x in json.load(open(%r))]\nprint(c18.call(%d, %d)[0])\n'
                    % (os.path.join(core.VERIF, 'harness'), pool_file, d, o))
@@ -194,10 +196,18 @@ def main():
     except (RuntimeError, subprocess.TimeoutExpired) as exc:
         chk.machinery(str(exc))
         return chk.finish()
-    core.lap('fresh processes x%d' % (len(seeds) * len(DECKS) * len(OPTS)))
+    # six more hash seeds under the default options (a two-element set has two orders: 3 seeds agree by chance too often)
+    extra = [s for s in (2, 3, 5, 6, 8, 11) if s not in seeds]
+    try:
+        tables += [fresh_table(s, only_opts=[1]) for s in extra]
+    except (RuntimeError, subprocess.TimeoutExpired) as exc:
+        chk.machinery(str(exc))
+        return chk.finish()
+    seeds = seeds + extra
+    core.lap('fresh processes x%d' % (3 * len(DECKS) * len(OPTS) + len(extra) * len(DECKS)))
     pure = tables[0]
     for s, t in zip(seeds[1:], tables[1:]):
-        for key in pure:
+        for key in t:
             if t[key] != pure[key]:
                 d, o = map(int, key.split(','))
                 chk.violation({'clause': 'hash_seed_dependent', 'deck': DECKS[d - 1][0], 'opts': ' '.join(OPTS[o - 1])},
